@@ -93,6 +93,10 @@ def run(ctx):
         c = calls[0]
         gs = guard_terms(c)
         file_dep = [t for t in gs if any(s == T.atom(handle) for s in T.subterms(t))]
+        if attr == "save_flow":
+            # a "this context already saved it" flag is stale after a refit inside the context
+            file_dep += [t for t in gs if any(s_ and s_[0] == "f" and s_[1] == "method:get" and len(s_[2]) > 1 and s_[2][1] == T.K("saved_flow") for s_ in T.subterms(t))
+                         or any(s_ == T.atom("saved_flow") for s_ in T.subterms(t))]
         ctx.decide(not file_dep, rule, sp.ident, loc_of(sp, c),
                    f"writing /{key} does not depend on what the file already contains (guards: {[T.show(t)[:50] for t in gs]})",
                    f"/{key} is only written when {[T.show(t)[:60] for t in file_dep]}: an artifact left in the file by an earlier fit or run is kept, so the "
@@ -114,6 +118,9 @@ def run(ctx):
     ok = bool(assigns) and assigns[0].lineno < W.lineno and isinstance(assigns[0].value, ast.Name) and assigns[0].value.id == "sampler"
     ctx.decide(ok, "C14.config", sp.ident, loc_of(sp, assigns[0] if assigns else W), "sampler_type is updated to the requested sampler before the configuration is written",
                "the configuration is written before sampler_type is updated: it names the sampler of the previous run", disc="type")
+    from ..report import reuse
+    from . import c19
+    reuse(ctx, c19.run, ("C19.ac",), "C14ctx", "context rule shared with C19: checkpoint defaults left behind after the with-block make later calls write to the old file")
     cd = A.methods["config_dict"]
     reads = any(isinstance(n, ast.Attribute) and n.attr == "_last_sampler_type" for n in ast.walk(cd.node))
     ctx.decide(reads, "C14.config", cd.ident, loc_of(cd), "config_dict reports the last requested sampler type", "config_dict does not report the sampler type", disc="report")
@@ -130,8 +137,11 @@ MUTANTS = [
       more=[("samples = self._sampler.sample(n_samples, **kwargs)", "samples = self._sampler.sample(n_samples, **kwargs)\n        self._last_sampler_type = sampler")]),
     M("config without the sampler", _A, "self.save_config(\n                        h5_file,\n                        include_sampler_config=True,\n                        include_sample_calls=False,\n                    )\n                    saved_config = True", "self.save_config(\n                        h5_file,\n                        include_sampler_config=False,\n                    )\n                    saved_config = True", "C14.config"),
 ]
+MUTANTS += [
+    M("flow written once per context", _A, "if self.flow is not None:\n                    # Always store", "if self.flow is not None and not saved_flow:\n                    # Always store", "C14.flow"),
+]
 NEUTRALS = [
-    M("flow guard with the context flag", _A, "if self.flow is not None:\n                    # Always store", "if self.flow is not None and not saved_flow:\n                    # Always store"),
+    M("flow existence test mirrored", _A, "if self.flow is not None:\n                    # Always store", "if not (self.flow is None):\n                    # Always store"),
 ]
 
 # functions the property is anchored in (auto-mutant sweep of the thorough tier)
